@@ -508,4 +508,48 @@ example :
     let es : EState := { s := s, lfu := [(0, ⟨[b "a"], [some ⟨b "a", 1, 1⟩]⟩)], lru := [(0, {})] }
     (adjustMemoryUsage ⟨70, .allkeysLfu⟩ {} 0 es).toOption.map (fun r => (r.1, r.2.s.mem, (r.2.s.db 0).store.length)) = some (true, 42, 0) := by decide
 
+/-! ## the remaining classes, stated on the model -/
+
+/-- in-place mutation of a stored object is never refused and never consults the limit: the only admission test
+    is the one in setValues (the `noeviction-admits-in-place-collection-writes` class) -/
+theorem mutobj_bypasses_admission (c : Ctx) (env : Env) (es : EState) (k : Bytes) (v : Val) :
+    execE c env es (.mutObj k v) = .ok ((), { es with s := Sugar.mutObj es.s c.db k v }) := rfl
+
+/-- setExpiry on a key that is no longer there (evicted a moment ago by the update that setValues spawned) creates
+    an entry with a nil value and the deadline (the `expiry-write-resurrects-evicted-key-as-nil` class) -/
+theorem setexpiry_resurrects_as_nil (c : Ctx) (s s' : State) (k : Bytes) (e : Option Int)
+    (habs : s.lookup c.db k = none) (hx : setExpiry c s k e = some s') :
+    s'.lookup c.db k = some ⟨.nil, e⟩ := by
+  unfold setExpiry at hx
+  split at hx
+  · contradiction
+  · injection hx with hx
+    rw [← hx]
+    unfold State.lookup at habs
+    unfold State.db at habs
+    simp [State.lookup, State.db, NMap.get_put_same]
+    rw [habs]
+
+theorem mem_addVol (v : List Bytes) (k : Bytes) (h : k ∈ v) : k ∈ (if v.contains k then v else v ++ [k]) := by
+  by_cases hc : v.contains k = true <;> simp [hc, h]
+
+/-- clearing the deadline keeps the key in the volatile index: volatile-random still picks it
+    (the `volatile-index-keeps-persisted-key` class) -/
+theorem persist_keeps_volatile_index (c : Ctx) (s s' : State) (k : Bytes)
+    (hin : k ∈ (s.db c.db).vol) (hx : setExpiry c s k none = some s') : k ∈ (s'.db c.db).vol := by
+  unfold setExpiry at hx
+  split at hx
+  · contradiction
+  · injection hx with hx
+    rw [← hx]
+    simp only [State.db, NMap.get_put_same, Option.getD_some]
+    unfold State.db at hin
+    exact mem_addVol _ _ hin
+
+/-- OBJECTFREQ on a database that was never written dereferences a nil cache -/
+theorem objectfreq_unopened_db_panics_witness :
+    (match handleObjFreqE { db := 0, now := 0, cfg := ⟨100, .allkeysLfu⟩ } { s := { dbs := [], mem := 0 } } [b "objectfreq", b "k"] with
+     | .error (.panic _) => true
+     | _ => false) = true := by decide
+
 end Sugar.Props.C08
